@@ -783,18 +783,81 @@ def _subst_items(items, env):
     return out
 
 
+def _map_exprs(items, f):
+    """the items with f applied to every expression (no scoping: the caller has checked that no name is re-bound)"""
+    out = []
+    for it in items:
+        k = it[0]
+        if k == "out":
+            out.append(("out", f(it[1])) + tuple(it[2:]))
+        elif k == "set":
+            out.append(("set", it[1], f(it[2])) + tuple(it[3:]))
+        elif k == "setblock":
+            out.append(("setblock", it[1], tuple(_map_exprs(it[2], f))) + tuple(it[3:]))
+        elif k == "for":
+            out.append(("for", it[1], f(it[2]), tuple(_map_exprs(it[3], f)), tuple(_map_exprs(it[4], f)), it[5], it[6], f(it[7]) if it[7] is not None else None))
+        elif k == "if":
+            out.append(("if", f(it[1]), tuple(_map_exprs(it[2], f)), tuple(_map_exprs(it[3], f))) + tuple(it[4:]))
+        else:
+            out.append(it)
+    return out
+
+
+def _position_loop(tg, seq, body):
+    """`{% for i in range(S | length) %} .. S[i] .. {{ i }}` is `{% for x in S %} .. x .. {{ loop.index0 }}`: -> (element variable,
+    S, rewritten body), or None when the loop is not of that form, `i` is re-bound, or `i` is used inside a nested loop (where
+    `loop` is another loop)"""
+    if not (tg[0] == "name" and seq[0] == "call" and seq[1] == ("name", "range") and not seq[3] and len(seq[2]) in (1, 2)):
+        return None
+    if len(seq[2]) == 2 and seq[2][0] != ("const", 0):
+        return None
+    n = canon(seq[2][-1])
+    if not (n[0] == "filter" and n[1] == "length" and not n[3] and not n[4]):
+        return None
+    S, i = n[2], tg[1]
+    used = set()
+    for sub, st in walk_items(body):
+        k = sub[0]
+        if k in ("set", "setblock", "for") and i in names_of(sub[1]):
+            return None
+        nested = any(x[0] == "for" for x in st)
+        exprs = [sub[1]] if k in ("out", "if") else [sub[2]] if k == "set" else [sub[2]] if k == "for" else []
+        inner = [sub[7]] if k == "for" and sub[7] is not None else []         # evaluated per item of the nested loop
+        for x in exprs + inner:
+            used |= names_of(x)
+        if any(i in names_of(x) for x in (exprs if nested else []) + inner):
+            return None
+    elem = ("name", i + "_item")
+    if elem[1] in used:
+        return None
+
+    def f(e):
+        if not isinstance(e, tuple):
+            return e
+        if e == ("item", S, tg):
+            return elem
+        if e == tg:
+            return ("attr", ("name", "loop"), "index0")
+        return tuple(f(x) if isinstance(x, tuple) else x for x in e)
+    return elem, S, _map_exprs(body, f)
+
+
 def unmap_loops(items):
     """`{% for a in S | map(attribute="alias") %} .. {{ a }}` is `{% for a in S %} .. {{ a.alias }}`: a loop over a chain of
     one-to-one `map` filters (see elementwise) visits the base sequence in order, its variable standing for the mapped element;
     positions (`loop.index0`, `loop.last`) and the number of iterations are those of the base.  The same items with such loops
     rewritten over their base sequence (recursively; the loop variable keeps its name).  Loops whose target is not a plain name or
-    whose map chain is not understood are left as they are."""
+    whose map chain is not understood are left as they are.  A loop over the positions of a sequence (`for i in range(S | length)`,
+    see _position_loop) is rewritten as the loop over the sequence in the same way."""
     out = []
     for it in items:
         k = it[0]
         if k == "for":
             body, els = unmap_loops(it[3]), unmap_loops(it[4])
             tg, seq, test = it[1], it[2], it[7]
+            pl = _position_loop(tg, seq, body) if test is None else None
+            if pl is not None:
+                tg, seq, body = pl
             if tg[0] == "name" and seq[0] == "filter" and seq[1] == "map":
                 base, elt = elementwise(seq, tg)
                 if base != seq and not (base[0] == "filter" and base[1] == "map"):
